@@ -1,6 +1,7 @@
 import PydraModel.DriverUtil
 import PydraModel.Envs.Lmod
 import PydraModel.Envs.Container
+import PydraModel.Gen.EnvRegexes
 open Lean PydraModel PydraModel.DriverUtil
 open PydraModel.Envs
 
@@ -63,6 +64,14 @@ def handle (j : Json) : Json :=
       return Json.mkObj [("argv", strsToJson argv), ("bindings", Json.arr (bs.map bindToJson).toArray),
                          ("last_writer", Json.arr (lastW.map bindToJson).toArray),
                          ("pinned_mounts", strsToJson (Container.mountArgsPinned flag bs))]
+    | "rc_fails" =>
+      let rc ← j.getObjValAs? Int "rc"
+      let t ← match (← getStr j "env") with
+        | "docker" => pure PydraModel.Gen.EnvRegexes.dockerRcTest
+        | "singularity" => pure PydraModel.Gen.EnvRegexes.singularityRcTest
+        | "lmod" => pure PydraModel.Gen.EnvRegexes.lmodRcTest
+        | e => throw s!"bad-env {e}"
+      return Json.mkObj [("fails", toJson (t.eval rc))]
     | "norm_path" =>
       return Json.mkObj [("norm", Json.str (String.ofList (Container.normPath (← getStr j "path").toList)))]
     | _ => throw s!"bad-op {op}"
